@@ -334,7 +334,11 @@ func (Scenario) Run(c choice.Chooser, opt sim.Options) (res sim.Result) {
 			w.values = append(w.values, nodes.Value(v))
 		}
 	}
-	nn := 1 + c.Intn("g:nodes", 8)
+	maxNodes, maxHist := 8, 41
+	if opt.Tier == "thorough" {
+		maxNodes, maxHist = 14, 101 // deeper bounds
+	}
+	nn := 1 + c.Intn("g:nodes", maxNodes)
 	pickRef := func(i int, allowNone bool) int {
 		n := i + ns
 		if allowNone {
@@ -425,7 +429,7 @@ func (Scenario) Run(c choice.Chooser, opt sim.Options) (res sim.Result) {
 	nontrivial := false
 	changedSinceRead := false
 	serial := 1
-	for more := true; more; more = len(hist) < 41 && c.Intn("more", 16) != 0 {
+	for more := true; more; more = len(hist) < maxHist && c.Intn("more", 16) != 0 {
 		kind := choice.Pick(c, "op:kind", []int{6, 4, 2, 2, 2, 1, 1, 1})
 		res.Evals++
 		res.Steps++
